@@ -788,6 +788,15 @@ func (e *enumerator) walkFn(fn *ssa.Function, ev []string, depth int, k func(ev 
 		for p, v := range st.phi {
 			if isBoolType(p.Type()) {
 				ph = append(ph, p.Name()+"="+v.Name())
+				continue
+			}
+			// which of several results an error / pointer variable carries decides later
+			// nil tests on this path
+			switch p.Type().Underlying().(type) {
+			case *types.Interface, *types.Pointer, *types.Signature:
+				if p.Block() != nil && reach[p.Block().Index][b.Index] || p.Block() == b {
+					ph = append(ph, p.Name()+"="+v.Name())
+				}
 			}
 		}
 		sort.Strings(ph)
@@ -899,6 +908,9 @@ func (e *enumerator) walkFn(fn *ssa.Function, ev []string, depth int, k func(ev 
 				return
 			}
 			key := sig(b, from, ev)
+			if os.Getenv("RIGOCHECK_DEBUG") == "trace:"+fn.Name() {
+				fmt.Fprintln(os.Stderr, "TRACE", depth, b.Index, b.Comment, visited[key], len(ev))
+			}
 			if visited[key] {
 				return
 			}
@@ -980,6 +992,7 @@ func (e *enumerator) walkFn(fn *ssa.Function, ev []string, depth int, k func(ev 
 					next := i + 1
 					e.w.inlineEnv = append(e.w.inlineEnv, env)
 					depthEnv := len(e.w.inlineEnv)
+					defer e.w.bindStructArgs(cal, callArgs)()
 					// function values handed down (a closure to be called by the helper)
 					fenv := map[*ssa.Parameter]ssa.Value{}
 					for j, p := range cal.Params {
